@@ -301,8 +301,8 @@ pub(crate) fn quote<'a>(s: &'a str, options: &QuoteOptions) -> Cow<'a, str> {
         return ansi_c_quote(s).into();
     }
 
-    let use_default_quotes =
-        !use_ansi_c_quotes && (options.always_quote || s.is_empty() || s.contains(needs_escaping));
+    let use_default_quotes = !use_ansi_c_quotes
+        && (options.always_quote || s.is_empty() || contains_char_needing_escaping(s));
 
     if !use_default_quotes {
         return s.into();
@@ -351,18 +351,33 @@ fn backslash_escape(s: &str) -> Cow<'_, str> {
     if s.is_empty() {
         // An empty string must be represented as '' to be a valid shell word.
         Cow::Owned("''".to_string())
-    } else if !s.chars().any(needs_escaping) {
+    } else if !contains_char_needing_escaping(s) {
         Cow::Borrowed(s)
     } else {
         let mut output = String::with_capacity(s.len());
+        let mut prev = None;
         for c in s.chars() {
-            if needs_escaping(c) {
+            if needs_escaping(c) || needs_escaping_at(prev, c) {
                 output.push('\\');
             }
             output.push(c);
+            prev = Some(c);
         }
         Cow::Owned(output)
     }
+}
+
+// Returns whether or not the given string contains a character that needs to be escaped
+// (or quoted) if outside quotes, taking into account where in the string it appears.
+fn contains_char_needing_escaping(s: &str) -> bool {
+    let mut prev = None;
+    for c in s.chars() {
+        if needs_escaping(c) || needs_escaping_at(prev, c) {
+            return true;
+        }
+        prev = Some(c);
+    }
+    false
 }
 
 fn single_quote(s: &str) -> Cow<'_, str> {
@@ -470,6 +485,18 @@ const fn needs_escaping(c: char) -> bool {
     )
 }
 
+// Returns whether or not the given character needs to be escaped (or quoted) if outside
+// quotes only because of where it appears in the word: a tilde starts a tilde-prefix at the
+// beginning of a word and after a ':' or '=', and a '#' at the beginning of a word starts
+// a comment.
+const fn needs_escaping_at(prev: Option<char>, c: char) -> bool {
+    match c {
+        '~' => matches!(prev, None | Some(':' | '=')),
+        '#' => prev.is_none(),
+        _ => false,
+    }
+}
+
 const fn needs_ansi_c_quoting(c: char) -> bool {
     c.is_ascii_control()
 }
@@ -483,6 +510,10 @@ mod tests {
         assert_eq!(quote_if_needed("a", QuoteMode::BackslashEscape), "a");
         assert_eq!(quote_if_needed("a b", QuoteMode::BackslashEscape), r"a\ b");
         assert_eq!(quote_if_needed("", QuoteMode::BackslashEscape), "''");
+        assert_eq!(quote_if_needed("~", QuoteMode::BackslashEscape), r"\~");
+        assert_eq!(quote_if_needed("a~", QuoteMode::BackslashEscape), "a~");
+        assert_eq!(quote_if_needed("a:~b", QuoteMode::BackslashEscape), r"a:\~b");
+        assert_eq!(quote_if_needed("#a#", QuoteMode::BackslashEscape), r"\#a#");
     }
 
     #[test]
@@ -491,6 +522,8 @@ mod tests {
         assert_eq!(quote_if_needed("a b", QuoteMode::SingleQuote), "'a b'");
         assert_eq!(quote_if_needed("", QuoteMode::SingleQuote), "''");
         assert_eq!(quote_if_needed("'", QuoteMode::SingleQuote), "\\'");
+        assert_eq!(quote_if_needed("~", QuoteMode::SingleQuote), "'~'");
+        assert_eq!(quote_if_needed("#a", QuoteMode::SingleQuote), "'#a'");
     }
 
     fn assert_echo_expands_to(unexpanded: &str, expected: &str) {
